@@ -950,7 +950,10 @@ def q_exists(interp, args, kwargs):
 
 
 def m_is_opaque(interp, args, kwargs):
-    return isinstance(args[0], Opaque)
+    x = args[0]
+    if isinstance(x, (SOpt, SChoice)):
+        x = interp.resolve(x)
+    return isinstance(x, Opaque)
 
 
 def _count_reduce_site(interp):
